@@ -1,7 +1,7 @@
 """Prints the markdown table of /verif/seeded/*/*/meta.json (pasted into DESIGN.md section 7)."""
 import glob, json, os
 V = os.path.dirname(os.path.dirname(os.path.abspath(__file__)))
-print("| change | needs to manifest | tests pass with it | check verdict | first report of the check |")
+print("| change | needs to manifest | tests pass with it | verdict of the current check (re-run after round 5) | first report of the check |")
 print("|---|---|---|---|---|")
 for f in sorted(glob.glob(os.path.join(V, "seeded", "*", "*", "meta.json"))):
     m = json.load(open(f))
@@ -9,7 +9,11 @@ for f in sorted(glob.glob(os.path.join(V, "seeded", "*", "*", "meta.json"))):
     first = (run[0]["first_reports"][0] if run and run[0].get("first_reports") else "")
     first = first.replace("|", "/")[:170]
     note = m.get("history_note", "")
+    rc = m.get("recheck") or {}
+    verdict = rc.get("verdict") or m.get("check_verdict")
+    if rc.get("first"):
+        first = rc["first"][0].replace("|", "/")[:170]
     print("| %s/%s | %s | %s | %s%s | %s |" % (
         m["property"], m["k"], m["needs_to_manifest"].replace("|", "/"),
         "yes" if m.get("suite_passes_with_patch") else "NO",
-        m.get("check_verdict"), (" — " + note) if note else "", first))
+        verdict, (" — " + note) if note else "", first))
